@@ -259,6 +259,8 @@ class Verifier(Engine):
                             hs = [stmt_header(x) for x in lst]
                             m1 = [i_ for i_, h_ in enumerate(hs) if hdr_match(first, h_)]
                             m2 = [i_ for i_, h_ in enumerate(hs) if m1 and i_ >= m1[0] and hdr_match(last, h_)]
+                            if last == "<end>" and m1:
+                                m2 = [len(lst) - 1]          # up to the last statement of the statement list
                             if m1 and m2:
                                 i0, i1 = m1[0], m2[0]
                                 found.append(lst[i0:i1 + 1])
@@ -327,6 +329,34 @@ class Verifier(Engine):
                 allowed = set(c.opts.get("unreached_ok", []))
                 if allowed != "*" and not set(unreached) <= set(allowed) and c.opts.get("unreached_ok") != "*":
                     rec["unreached_returns_note"] = "not listed in the contract's `unreached_ok` (reported, not an error)"
+        # reachability report (vacuity aid): statements of the verified body that no explored path executes - cut off by the
+        # precondition (intended: say so with `unreached_ok`), summarised by a block contract, or by an infeasible state (a MODEL or
+        # CONTRACT defect: whatever is claimed about that statement is vacuous)
+        def stmts_of(nodes, out):
+            for n_ in nodes:
+                if isinstance(n_, (ast.FunctionDef, ast.AsyncFunctionDef, ast.ClassDef)):
+                    continue
+                if isinstance(n_, ast.stmt):
+                    out.append(n_)
+                for fld in ("body", "orelse", "finalbody"):
+                    stmts_of(getattr(n_, fld, []) or [], out)
+                for h_ in getattr(n_, "handlers", []) or []:
+                    stmts_of(h_.body, out)
+            return out
+        summarised = set()
+        for st_ in stmts_of(body, []):
+            if self.block_summary(st_, fx) is not None:
+                summarised |= {x.lineno for x in stmts_of([st_], [])} - {st_.lineno}
+        unreached_s = sorted({x.lineno for x in stmts_of(body, [])} - getattr(fx, "reached_stmts", set()) - summarised)
+        if unreached_s:
+            rec["unreached_statements"] = unreached_s
+            ok_ = c.opts.get("unreached_ok", [])
+            if ok_ != "*" and not set(unreached_s) <= {x for x in ok_ if isinstance(x, int)}:
+                rec["unreached_statements_note"] = "not waived by the contract's `unreached_ok` (reported, not an error)"
+            for hdr_ in c.opts.get("must_reach", []):
+                hit = [x for x in stmts_of(body, []) if hdr_match(hdr_, stmt_header(x))]
+                if not hit or any(x.lineno in unreached_s for x in hit):
+                    raise CheckerError("vacuity: no explored path reaches %r in %s" % (hdr_, c.func))
         rec["obligations"] = fx.nobl
         if fx.nobl == 0:
             raise CheckerError("zero obligations generated for %s" % c.func)
@@ -530,6 +560,9 @@ class Verifier(Engine):
         return outs + [(NORMAL, None, st)]
 
     def run_stmt(self, s, st, fx):
+        if not hasattr(fx, "reached_stmts"):
+            fx.reached_stmts = set()
+        fx.reached_stmts.add(s.lineno)
         c2 = self.block_summary(s, fx)
         if c2 is not None:
             return self.apply_summary(c2, s, st, fx)
